@@ -403,7 +403,7 @@ impl Property for C13 {
         ]
     }
     fn cases(&self, tier: Tier) -> usize {
-        tier.pick(12_000, 300_000)
+        tier.pick(60000, 300_000)
     }
     fn strategy(&self, tier: Tier) -> BoxedStrategy<Case> {
         let max = tier.pick(30, 120);
